@@ -182,7 +182,10 @@ impl<'a> ConstraintValidator<'a> {
 
         for position in table_btree.iter_forward()? {
             if let Ok(pos) = position {
-                if let Some(row) = table_btree.get_row_at(pos, self.schema, &snapshot)? {
+                let row = table_btree.get_row_at(pos, self.schema, &snapshot)?;
+                // (let go of the leaf, see DdlExecutor::populate_index)
+                crate::tree::accessor::Accessor::clear(table_btree.accessor_mut()?);
+                if let Some(row) = row {
                     let Some(DataType::BigUInt(UInt64(value))) = row.first() else {
                         return Err(ValidationError::Btree(BtreeError::Other(
                             "tables must start with row id".to_string(),
